@@ -29,3 +29,28 @@ Proof.
   destruct c; try discriminate He. apply Nat.leb_le. exact H.
 Qed.
 Print Assumptions C19_saved_at_most_once.
+
+(* ---- kind F: ALL plain programs (no switch, no one-of, no body asking for another iteration; any size, any shape, any retry
+   settings, any event managers, any store, gated or not, any collaborator faults), ALL schedules incl. cancellation ----
+   what is handed to the artifact store is never a Recurrent marker or a contained failure. *)
+From MLPE Require Import Proofs.PlainWorld Proofs.PlainLive.
+
+Theorem C19_on_plain_programs_no_marker_or_failure_is_saved :
+  forall P, plain_prog P ->
+    forall st n v, reachable P st -> In (OSave n v) (st_trace st) -> is_rec v = false /\ is_exn v = false.
+Proof.
+  intros P HP st n v Hr Hin. pose proof (plain_prog_values_in_flight P st _ HP Hr Hin) as H. cbn [obs_clean] in H.
+  split; [apply clean_not_rec|apply clean_not_exn]; exact H.
+Qed.
+Print Assumptions C19_on_plain_programs_no_marker_or_failure_is_saved.
+
+(* the hypothesis is met by catalogue programs, and saves do happen *)
+Example C19_plain_not_vacuous :
+  plain_prog cat_rhombus_store /\
+  existsb (fun o => match o with OSave _ _ => true | _ => false end) (st_trace (auto_run cat_rhombus_store 40 init_state)) = true /\
+  reachable cat_rhombus_store (auto_run cat_rhombus_store 40 init_state).
+Proof.
+  split; [|split; [vm_compute; reflexivity|apply auto_run_reachable, reach_init]].
+  split; [vm_compute; reflexivity|]. split; [|vm_compute; reflexivity].
+  apply dsl_body_clean. vm_compute. reflexivity.
+Qed.
